@@ -124,6 +124,70 @@ impl RunningApp for SyncApp {
     }
 }
 
+/// An application whose connection condition keeps the accept thread busy (it waits up to 1.2 s for the first byte
+/// of each new connection): the signal arrives while a silent client is being examined. When `run` returns - however
+/// long that takes within the bound - the port must be free at that moment, not some time later.
+fn slow_condition_scenario(r: &mut Report, k: u64) {
+    fn wait_first_byte(stream: &mut TcpStream, _: Arc<()>) -> bool {
+        let _ = stream.set_read_timeout(Some(Duration::from_millis(1200)));
+        let mut b = [0u8; 1];
+        let _ = stream.peek(&mut b);
+        let _ = stream.set_read_timeout(None);
+        true
+    }
+    let port = hvcommon::net::free_port("127.0.0.1");
+    let addr: SocketAddr = format!("127.0.0.1:{}", port).parse().unwrap();
+    let (tx, rx) = channel();
+    let (dtx, drx) = channel();
+    let app: App<()> = App::new_with_config(2, ()).with_route("/fast", |_: Request, _: Arc<()>| Response::new(StatusCode::OK, "fast")).with_connection_condition(wait_first_byte).with_shutdown(rx);
+    std::thread::spawn(move || {
+        let _ = app.run(addr);
+        dtx.send(Instant::now()).ok();
+    });
+    // readiness: a probe that sends at once (so that the condition lets it through immediately)
+    let mut up = false;
+    for _ in 0..400 {
+        if let Ok(mut s) = TcpStream::connect(addr) {
+            use std::io::Write;
+            let _ = s.write_all(b"GET /fast HTTP/1.1\r\nHost: hv\r\nConnection: close\r\n\r\n");
+            let mut sink = Vec::new();
+            let _ = s.set_read_timeout(Some(Duration::from_secs(5)));
+            let _ = s.read_to_end(&mut sink);
+            up = sink.starts_with(b"HTTP/1.1 200");
+            break;
+        }
+        std::thread::sleep(Duration::from_millis(3));
+    }
+    r.eval();
+    r.count("slow_condition_scenarios", 1);
+    r.nontrivial(0x20c0_0000 + k);
+    if !up {
+        r.inconclusive("slow-condition app did not start serving");
+        return;
+    }
+    // the silent client the accept thread will be busy with, then the signal
+    let silent = TcpStream::connect(addr);
+    std::thread::sleep(Duration::from_millis(100 + (k % 4) * 150));
+    let t_signal = Instant::now();
+    tx.send(()).ok();
+    let replay = vec!["c20".to_string(), "--slow-condition".into(), k.to_string()];
+    match drx.recv_timeout(Duration::from_secs(10)) {
+        Err(_) => r.violation("C20/run-did-not-return:threaded", "[threaded] run() had not returned 10 s after the shutdown signal (accept thread busy in the connection condition)".to_string(), hvcommon::json::J::Null, replay),
+        Ok(t) => {
+            r.max("max_ms_signal_to_return", t.saturating_duration_since(t_signal).as_millis() as u64);
+            match std::net::TcpListener::bind(addr) {
+                Ok(l) => {
+                    drop(l);
+                    r.count("rebinds_ok", 1);
+                    r.count("slow_condition_rebinds_ok", 1);
+                }
+                Err(e) => r.violation("C20/port-not-free:threaded", format!("[threaded] run() returned {} ms after the signal while the accept thread was still examining a connection; re-binding {} at that moment failed: {}", t.saturating_duration_since(t_signal).as_millis(), addr, e), hvcommon::json::J::Null, replay),
+            }
+        }
+    }
+    drop(silent);
+}
+
 pub fn main(args: &Args) {
     let out = args.get("out").expect("--out");
     let seed = args.seed();
@@ -132,6 +196,9 @@ pub fn main(args: &Args) {
     humphrey::verif::set_failpoint_handler(fp_handler);
     let reports = par(if only.is_some() { 1 } else { ncpu() }, move |shard, nsh| {
         let mut r = Report::new();
+        if only.is_none() && shard < 8 {
+            slow_condition_scenario(&mut r, shard as u64);
+        }
         let mut k = only.unwrap_or(shard as u64);
         while k < n || only == Some(k) {
             let mut rng = Rng::derive(seed, 0x2000_0000 + k);
@@ -162,5 +229,5 @@ pub fn main(args: &Args) {
         total.nontrivial(1);
         total.nontrivial(2);
     }
-    total.write(out, "traffic states of 0..16 connections each in {just accepted, idle keep-alive, half-sent request, handler running 5 ms / 500 ms / 1.2-3 s, 1-4 MiB response to a reader that is not reading, WebSocket open} on pools of 1..8 threads (incl. fully occupied pools with queued connections), bound to 127.0.0.1, 0.0.0.0 or [::]; signal sent before any connection, after the traffic has settled, or from another thread during the burst of connects; seeded delays at the two accept-loop failpoints. distinct = distinct scenarios; every scenario is non-trivial (return, re-bind and in-flight responses are judged)", None, &["bounded progress: run must return within 10 s of the signal (typical: milliseconds)", "connections racing with the signal may get a complete response or nothing, never a truncated one", "the process is kept alive so that handlers started before the signal can finish (as the property's observation point prescribes)"]);
+    total.write(out, "traffic states of 0..16 connections each in {just accepted, idle keep-alive, half-sent request, handler running 5 ms / 500 ms / 1.2-3 s, 1-4 MiB response to a reader that is not reading, WebSocket open} on pools of 1..8 threads (incl. fully occupied pools with queued connections), bound to 127.0.0.1, 0.0.0.0 or [::]; signal sent before any connection, after the traffic has settled, or from another thread during the burst of connects; seeded delays at the two accept-loop failpoints; plus applications whose connection condition keeps the accept thread busy for up to 1.2 s per connection, signalled while a silent client is being examined. distinct = distinct scenarios; every scenario is non-trivial (return, re-bind and in-flight responses are judged)", None, &["bounded progress: run must return within 10 s of the signal (typical: milliseconds)", "connections racing with the signal may get a complete response or nothing, never a truncated one", "the process is kept alive so that handlers started before the signal can finish (as the property's observation point prescribes)"]);
 }
